@@ -529,4 +529,627 @@ theorem cwnd_ge_minimum {l : Loss} (h : Reachable l) : 2 * l.cc.mds ≤ l.cc.cwn
   have hi := reachable_inv h
   exact ⟨hi.cwnd, hi.mds⟩
 
+
+/-! ## fates: every tracked packet changes state at most once, callbacks are exact -/
+
+/-- The list holds consecutive packet numbers starting at `n` (the ring buffer invariant). -/
+def Consec : Int → List Pkt → Prop
+  | _, [] => True
+  | n, p :: rest => p.num = n ∧ Consec (n + 1) rest
+
+theorem consec_mem {n : Int} {ps : List Pkt} (h : Consec n ps) {p : Pkt} (hp : p ∈ ps) :
+    n ≤ p.num ∧ p.num < n + ps.length := by
+  induction ps generalizing n with
+  | nil => simp at hp
+  | cons q rest ih =>
+    obtain ⟨h1, h2⟩ := h
+    rcases List.mem_cons.1 hp with rfl | hp
+    · simp only [List.length_cons]; omega
+    · have := ih h2 hp
+      simp only [List.length_cons]; omega
+
+theorem consec_append {n : Int} {ps : List Pkt} (h : Consec n ps) (p : Pkt) (hp : p.num = n + ps.length) :
+    Consec n (ps ++ [p]) := by
+  induction ps generalizing n with
+  | nil => simp at hp; exact ⟨hp, trivial⟩
+  | cons q rest ih =>
+    obtain ⟨h1, h2⟩ := h
+    refine ⟨h1, ih h2 ?_⟩
+    simp only [List.length_cons] at hp; omega
+
+theorem consec_clean {n : Int} {ps : List Pkt} (h : Consec n ps) :
+    Consec (n + (ps.length - (cleanList ps).length : Nat)) (cleanList ps) ∧ (cleanList ps).length ≤ ps.length ∧
+    (∀ p ∈ ps, p ∈ cleanList ps ∨ (p.state ≠ .sent ∧ p.num < n + (ps.length - (cleanList ps).length : Nat))) := by
+  induction ps generalizing n with
+  | nil => simp [cleanList]; exact h
+  | cons q rest ih =>
+    obtain ⟨h1, h2⟩ := h
+    simp only [cleanList]
+    split
+    · simp; exact ⟨⟨h1, h2⟩, fun a ha => Or.inl (Or.inr ha)⟩
+    · rename_i hq
+      obtain ⟨a, b, c⟩ := ih h2
+      have hl : (q :: rest).length - (cleanList rest).length = (rest.length - (cleanList rest).length) + 1 := by
+        simp only [List.length_cons]; omega
+      rw [hl]
+      refine ⟨?_, by simp only [List.length_cons]; omega, ?_⟩
+      · have : n + ((rest.length - (cleanList rest).length + 1 : Nat) : Int) = n + 1 + ((rest.length - (cleanList rest).length : Nat) : Int) := by
+          push_cast; omega
+        rw [this]; exact a
+      · intro p hp
+        rcases List.mem_cons.1 hp with rfl | hp
+        · right; exact ⟨hq, by push_cast; omega⟩
+        · rcases c p hp with h | ⟨h, h'⟩
+          · exact Or.inl h
+          · right; exact ⟨h, by push_cast at h' ⊢; omega⟩
+
+/-- The generic relation all three walks satisfy. -/
+def Settles (p p' : Pkt) : Prop :=
+  p' = p ∨ (p.state = .sent ∧ (p' = { p with state := .acked } ∨ p' = { p with state := .lost }))
+
+/-- Everything the history-level argument needs about one walk over a consecutive list. -/
+theorem walk_facts {ps ps' : List Pkt} (h : All₂ Settles ps ps') : ∀ {n : Int}, Consec n ps →
+    Consec n ps' ∧ ps'.length = ps.length ∧
+    (∀ k ∈ changedNums ps ps', n ≤ k ∧ (∃ p ∈ ps, p.num = k ∧ p.state = .sent) ∧
+        (∀ p' ∈ ps', p'.num = k → p'.state = .acked ∨ p'.state = .lost)) ∧
+    (∀ p' ∈ ps', p'.num ∉ changedNums ps ps' → p' ∈ ps) ∧
+    (∀ p ∈ ps, p.state ≠ .sent → p ∈ ps') ∧
+    (changedNums ps ps').Nodup := by
+  induction h with
+  | nil => intro n _; exact ⟨trivial, rfl, by simp [changedNums], by simp, by simp, by simp [changedNums]⟩
+  | @cons p p' rest rest' hpp hrest ih =>
+    intro n hc
+    obtain ⟨hn, hc'⟩ := hc
+    obtain ⟨i1, i2, i3, i4, i5, i6⟩ := ih hc'
+    have hnum : p'.num = p.num := by rcases hpp with rfl | ⟨_, rfl | rfl⟩ <;> rfl
+    have hrest'_num : ∀ q ∈ rest', n + 1 ≤ q.num := fun q hq => (consec_mem i1 hq).1
+    have hrest_num : ∀ q ∈ rest, n + 1 ≤ q.num := fun q hq => (consec_mem hc' hq).1
+    refine ⟨⟨by rw [hnum, hn], i1⟩, by simp [i2], ?_, ?_, ?_, ?_⟩
+    · intro k hk
+      simp only [changedNums] at hk
+      split at hk
+      · rename_i hne
+        rcases List.mem_cons.1 hk with rfl | hk
+        · have hsent : p.state = .sent ∧ (p'.state = .acked ∨ p'.state = .lost) := by
+            rcases hpp with rfl | ⟨hs, rfl | rfl⟩
+            · exact absurd rfl hne
+            · exact ⟨hs, Or.inl rfl⟩
+            · exact ⟨hs, Or.inr rfl⟩
+          refine ⟨by omega, ⟨p, List.mem_cons_self, rfl, hsent.1⟩, ?_⟩
+          intro q hq hqn
+          rcases List.mem_cons.1 hq with rfl | hq
+          · exact hsent.2
+          · have := hrest'_num q hq; omega
+        · obtain ⟨a, ⟨q, hq, hq1, hq2⟩, c⟩ := i3 k hk
+          refine ⟨by omega, ⟨q, List.mem_cons_of_mem _ hq, hq1, hq2⟩, ?_⟩
+          intro r hr hrn
+          rcases List.mem_cons.1 hr with rfl | hr
+          · omega
+          · exact c r hr hrn
+      · obtain ⟨a, ⟨q, hq, hq1, hq2⟩, c⟩ := i3 k hk
+        refine ⟨by omega, ⟨q, List.mem_cons_of_mem _ hq, hq1, hq2⟩, ?_⟩
+        intro r hr hrn
+        rcases List.mem_cons.1 hr with rfl | hr
+        · omega
+        · exact c r hr hrn
+    · intro q hq hqn
+      simp only [changedNums] at hqn
+      rcases List.mem_cons.1 hq with rfl | hq
+      · split at hqn
+        · exact absurd (by rw [hnum]; exact List.mem_cons_self) hqn
+        · rename_i he
+          have : q = p := by
+            rcases hpp with h | ⟨hs, rfl | rfl⟩
+            · exact h
+            · simp at he; rw [hs] at he; exact absurd he (by decide)
+            · simp at he; rw [hs] at he; exact absurd he (by decide)
+          rw [this]; exact List.mem_cons_self
+      · apply List.mem_cons_of_mem
+        apply i4 q hq
+        split at hqn
+        · exact fun h => hqn (List.mem_cons_of_mem _ h)
+        · exact hqn
+    · intro q hq hqs
+      rcases List.mem_cons.1 hq with rfl | hq
+      · rcases hpp with h | ⟨hs, _⟩
+        · rw [h]; exact List.mem_cons_self
+        · exact absurd hs hqs
+      · exact List.mem_cons_of_mem _ (i5 q hq hqs)
+    · simp only [changedNums]
+      split
+      · refine List.nodup_cons.2 ⟨?_, i6⟩
+        intro hk
+        have := (i3 _ hk).1
+        omega
+      · exact i6
+
+
+/-- Per-space invariant with ghost lists: `fs` = packet numbers that already received a callback,
+`ks` = packet numbers that were skipped (both since the keys of the space were last discarded). -/
+structure SpaceInv (s : Space) (fs ks : List Int) : Prop where
+  consec : Consec s.start s.pkts
+  f_lt : ∀ n ∈ fs, n < s.nextNum
+  f_settled : ∀ n ∈ fs, ∀ p ∈ s.pkts, p.num = n → p.state = .acked ∨ p.state = .lost
+  k_lt : ∀ k ∈ ks, k < s.nextNum
+  k_unsent : ∀ k ∈ ks, (∃ p ∈ s.pkts, p.num = k ∧ p.state = .unsent) ∨ k < s.start
+  f_nodup : fs.Nodup
+  unsent_k : ∀ p ∈ s.pkts, p.state = .unsent → p.num ∈ ks
+
+theorem spaceInv_empty : SpaceInv {} [] [] := by
+  refine ⟨trivial, ?_, ?_, ?_, ?_, List.nodup_nil, ?_⟩ <;> intro n hn <;> simp at hn
+
+theorem spaceInv_add (s : Space) (fs ks : List Int) (h : SpaceInv s fs ks) (p : Pkt)
+    (hnum : p.num = s.nextNum) (hst : p.state = .sent ∨ p.state = .unsent) :
+    SpaceInv (s.add p) fs (if p.state = .unsent then s.nextNum :: ks else ks) := by
+  obtain ⟨hc, h1, h2, h3, h4, h5, h6⟩ := h
+  have hstart : (s.add p).start = s.start := by
+    simp only [Space.start, Space.add, List.length_append, List.length_singleton]; push_cast; omega
+  refine ⟨?_, ?_, ?_, ?_, ?_, h5, ?_⟩
+  rotate_left 5
+  · intro q hq hqu
+    simp only [Space.add, List.mem_append, List.mem_singleton] at hq
+    rcases hq with hq | rfl
+    · have := h6 q hq hqu
+      split
+      · exact List.mem_cons_of_mem _ this
+      · exact this
+    · simp only [hqu, if_true, hnum]; exact List.mem_cons_self
+  · rw [hstart]
+    apply consec_append hc
+    simp only [Space.start] at *; omega
+  · intro n hn; have := h1 n hn; simp only [Space.add]; omega
+  · intro n hn q hq hqn
+    simp only [Space.add, List.mem_append, List.mem_singleton] at hq
+    rcases hq with hq | rfl
+    · exact h2 n hn q hq hqn
+    · have := h1 n hn; omega
+  · intro k hk
+    simp only [Space.add]
+    split at hk
+    · rcases List.mem_cons.1 hk with rfl | hk
+      · omega
+      · have := h3 k hk; omega
+    · have := h3 k hk; omega
+  · intro k hk
+    rw [hstart]
+    simp only [Space.add]
+    split at hk
+    · rename_i hu
+      rcases List.mem_cons.1 hk with rfl | hk
+      · exact Or.inl ⟨p, by simp, hnum, hu⟩
+      · rcases h4 k hk with ⟨q, hq, hq1, hq2⟩ | h
+        · exact Or.inl ⟨q, by simp [hq], hq1, hq2⟩
+        · exact Or.inr h
+    · rcases h4 k hk with ⟨q, hq, hq1, hq2⟩ | h
+      · exact Or.inl ⟨q, by simp [hq], hq1, hq2⟩
+      · exact Or.inr h
+
+/-- A walk (ACK range / loss detection / discard) over the list of one space. -/
+theorem spaceInv_walk (s : Space) (fs ks : List Int) (h : SpaceInv s fs ks) (ps' : List Pkt) (m : Int)
+    (hw : All₂ Settles s.pkts ps') :
+    SpaceInv { s with pkts := ps', maxAcked := m } (changedNums s.pkts ps' ++ fs) ks ∧
+    (∀ n ∈ changedNums s.pkts ps', n ∉ fs ∧ n ∉ ks ∧ n < s.nextNum) ∧
+    (changedNums s.pkts ps').Nodup := by
+  obtain ⟨hc, h1, h2, h3, h4, h5, h6⟩ := h
+  obtain ⟨w1, w2, w3, w4, w5, w6⟩ := walk_facts hw hc
+  have hstart : ({ s with pkts := ps', maxAcked := m } : Space).start = s.start := by
+    simp only [Space.start, w2]
+  have hfresh : ∀ n ∈ changedNums s.pkts ps', n ∉ fs ∧ n ∉ ks ∧ n < s.nextNum := by
+    intro n hn
+    obtain ⟨a, ⟨p, hp, hp1, hp2⟩, c⟩ := w3 n hn
+    refine ⟨?_, ?_, ?_⟩
+    · intro hf
+      rcases h2 n hf p hp hp1 with h | h <;> rw [hp2] at h <;> exact absurd h (by decide)
+    · intro hk
+      rcases h4 n hk with ⟨q, hq, hq1, hq2⟩ | hlt
+      · -- q and p have the same number in a consecutive list, so they are the same packet
+        have hcq := c
+        have hq' : q ∈ ps' := w5 q hq (by rw [hq2]; decide)
+        rcases c q hq' hq1 with h | h <;> rw [hq2] at h <;> exact absurd h (by decide)
+      · omega
+    · have := (consec_mem hc hp).2
+      simp only [Space.start] at this; omega
+  refine ⟨⟨by rw [hstart]; exact w1, ?_, ?_, h3, ?_, ?_, ?_⟩, hfresh, w6⟩
+  rotate_left 4
+  · intro p' hp' hpu
+    by_cases hch : p'.num ∈ changedNums s.pkts ps'
+    · rcases (w3 _ hch).2.2 p' hp' rfl with h | h <;> rw [hpu] at h <;> exact absurd h (by decide)
+    · exact h6 p' (w4 p' hp' hch) hpu
+  · intro n hn
+    rcases List.mem_append.1 hn with hn | hn
+    · exact (hfresh n hn).2.2
+    · exact h1 n hn
+  · intro n hn p' hp' hpn
+    rcases List.mem_append.1 hn with hn | hn
+    · exact (w3 n hn).2.2 p' hp' hpn
+    · by_cases hch : p'.num ∈ changedNums s.pkts ps'
+      · exact (w3 _ hch).2.2 p' hp' rfl
+      · exact h2 n hn p' (w4 p' hp' hch) hpn
+  · intro k hk
+    rw [hstart]
+    rcases h4 k hk with ⟨q, hq, hq1, hq2⟩ | hlt
+    · exact Or.inl ⟨q, w5 q hq (by rw [hq2]; decide), hq1, hq2⟩
+    · exact Or.inr hlt
+  · refine List.nodup_append.2 ⟨w6, h5, ?_⟩
+    intro a ha b hb hab
+    subst hab
+    exact (hfresh a ha).1 hb
+
+theorem spaceInv_clean (s : Space) (fs ks : List Int) (h : SpaceInv s fs ks) : SpaceInv s.clean fs ks := by
+  obtain ⟨hc, h1, h2, h3, h4, h5, h6⟩ := h
+  obtain ⟨c1, c2, c3⟩ := consec_clean hc
+  have hstart : s.clean.start = s.start + (s.pkts.length - (cleanList s.pkts).length : Nat) := by
+    simp only [Space.start, Space.clean]; push_cast; omega
+  have hsub : ∀ q ∈ cleanList s.pkts, q ∈ s.pkts := by
+    intro q hq
+    have : ∀ (l : List Pkt), q ∈ cleanList l → q ∈ l := by
+      intro l; induction l with
+      | nil => simp [cleanList]
+      | cons r rest ih =>
+        simp only [cleanList]; split
+        · exact id
+        · intro h; exact List.mem_cons_of_mem _ (ih h)
+    exact this _ hq
+  refine ⟨by rw [hstart]; exact c1, h1, ?_, h3, ?_, h5, fun p hp hpu => h6 p (hsub p hp) hpu⟩
+  · intro n hn p hp hpn
+    exact h2 n hn p (hsub p hp) hpn
+  · intro k hk
+    rw [hstart]
+    rcases h4 k hk with ⟨q, hq, hq1, hq2⟩ | hlt
+    · rcases c3 q hq with h | ⟨_, h⟩
+      · exact Or.inl ⟨q, h, hq1, hq2⟩
+      · right; omega
+    · right; omega
+
+
+/-! ### ghost history: which numbers already had a callback, which were skipped -/
+
+structure Ghost where
+  f : Nat → List Int := fun _ => []   -- per space: numbers that received an ack/loss callback
+  k : Nat → List Int := fun _ => []   -- per space: numbers that were skipped
+
+def upd (g : Nat → List Int) (i : Nat) (v : List Int) : Nat → List Int := fun j => if j = i then v else g j
+
+def numsOf (cbs : List Callback) : List Int := cbs.map (·.2.1)
+
+def FInv (l : Loss) (g : Ghost) : Prop := ∀ i, i < 3 → SpaceInv (l.space i) (g.f i) (g.k i)
+
+theorem space_update (l : Loss) (i j : Nat) (hi : i < 3) (hj : j < 3) (s : Space) (cc : CC) :
+    ({ (l.setSpace i s) with cc := cc } : Loss).space j = if j = i then s else l.space j := by
+  have : i = 0 ∨ i = 1 ∨ i = 2 := by omega
+  have : j = 0 ∨ j = 1 ∨ j = 2 := by omega
+  rcases ‹i = 0 ∨ i = 1 ∨ i = 2› with rfl | rfl | rfl <;> rcases ‹j = 0 ∨ j = 1 ∨ j = 2› with rfl | rfl | rfl <;>
+    simp [Loss.setSpace, Loss.space]
+
+theorem finv_update (l : Loss) (g : Ghost) (h : FInv l g) (i : Nat) (hi : i < 3) (s : Space) (cc : CC)
+    (fs ks : List Int) (hs : SpaceInv s fs ks) :
+    FInv { (l.setSpace i s) with cc := cc } { f := upd g.f i fs, k := upd g.k i ks } := by
+  intro j hj
+  rw [space_update l i j hi hj]
+  simp only [upd]
+  by_cases hji : j = i
+  · simp only [hji, if_true]; exact hs
+  · simp only [hji, if_false]; exact h j hj
+
+theorem settles_of_ack {ps ps' : List Pkt}
+    (h : All₂ (fun p p' => p' = p ∨ (p.state = .sent ∧ p' = { p with state := .acked })) ps ps') : All₂ Settles ps ps' :=
+  All₂.imp (fun _ _ h => by rcases h with h | ⟨h1, h2⟩; exact Or.inl h; exact Or.inr ⟨h1, Or.inl h2⟩) h
+
+theorem settles_of_lost {ps ps' : List Pkt}
+    (h : All₂ (fun p p' => p' = p ∨ (p.state = .sent ∧ p' = { p with state := .lost })) ps ps') : All₂ Settles ps ps' :=
+  All₂.imp (fun _ _ h => by rcases h with h | ⟨h1, h2⟩; exact Or.inl h; exact Or.inr ⟨h1, Or.inr h2⟩) h
+
+theorem numsOf_map (sp : Nat) (f : Fate) (ns : List Int) : numsOf (ns.map fun n => (sp, n, f)) = ns := by
+  simp [numsOf, List.map_map, Function.comp_def]
+
+/-- What holds of the callbacks of one primitive step on space `sp`. -/
+def Fresh (g : Ghost) (sp : Nat) (cbs : List Callback) : Prop :=
+  (∀ c ∈ cbs, c.1 = sp ∧ c.2.1 ∉ g.f sp ∧ c.2.1 ∉ g.k sp) ∧ (numsOf cbs).Nodup
+
+theorem fresh_of (g : Ghost) (sp : Nat) (f : Fate) (ns : List Int)
+    (h : ∀ n ∈ ns, n ∉ g.f sp ∧ n ∉ g.k sp) (hn : ns.Nodup) : Fresh g sp (ns.map fun n => (sp, n, f)) := by
+  refine ⟨?_, by rw [numsOf_map]; exact hn⟩
+  intro c hc
+  obtain ⟨n, hn', rfl⟩ := List.mem_map.1 hc
+  exact ⟨rfl, h n hn'⟩
+
+theorem g_receiveAckRange (l : Loss) (g : Ghost) (h : FInv l g) (sp : Nat) (hsp : sp < 3) (a b : Int) :
+    FInv (l.receiveAckRange sp a b).1 { g with f := upd g.f sp (numsOf (l.receiveAckRange sp a b).2.1 ++ g.f sp) } ∧
+    Fresh g sp (l.receiveAckRange sp a b).2.1 := by
+  have hsame : ∀ (l' : Loss), l' = l → FInv l' { g with f := upd g.f sp ([] ++ g.f sp) } := by
+    intro l' hl; subst hl
+    intro j hj; simp only [upd]; split
+    · rename_i e; subst e; exact h j hj
+    · exact h j hj
+  unfold Loss.receiveAckRange
+  simp only
+  generalize (if a < (l.space sp).start then (l.space sp).start else a) = st
+  by_cases h1 : b > (l.space sp).nextNum
+  · simp only [h1, if_true]; exact ⟨hsame l rfl, by simp [Fresh, numsOf]⟩
+  · by_cases h2 : st ≥ b
+    · simp only [h1, h2, if_true, if_false]; exact ⟨hsame l rfl, by simp [Fresh, numsOf]⟩
+    · simp only [h1, h2, if_false]
+      obtain ⟨_, _, e3, e4⟩ := ackWalk_spec st b (l.space sp).pkts l.cc (l.space sp).maxAcked
+      obtain ⟨w1, w2, w3⟩ := spaceInv_walk (l.space sp) (g.f sp) (g.k sp) (h sp hsp) _
+        (ackWalk st b l.cc (l.space sp).maxAcked (l.space sp).pkts).maxAcked (settles_of_ack e3)
+      rw [numsOf_map, e4]
+      refine ⟨?_, fresh_of g sp _ _ (fun n hn => ⟨(w2 n (e4 ▸ hn)).1, (w2 n (e4 ▸ hn)).2.1⟩) (e4 ▸ w3)⟩
+      have := finv_update l g h sp hsp _ (ackWalk st b l.cc (l.space sp).maxAcked (l.space sp).pkts).cc _ _ w1
+      intro j hj
+      have hj' := this j hj
+      simp only [upd] at hj' ⊢
+      by_cases hji : j = sp
+      · simp only [hji, if_true] at hj' ⊢; exact hj'
+      · simp only [hji, if_false] at hj' ⊢; exact hj'
+
+
+theorem upd_self (g : Nat → List Int) (i : Nat) : upd g i (g i) = g := by
+  funext j; simp only [upd]; split
+  · rename_i h; rw [h]
+  · rfl
+
+/-- `finv_update` when only the fated list of space `i` changes. -/
+theorem finv_update_f (l : Loss) (g : Ghost) (h : FInv l g) (i : Nat) (hi : i < 3) (s : Space) (cc : CC)
+    (fs : List Int) (hs : SpaceInv s fs (g.k i)) :
+    FInv { (l.setSpace i s) with cc := cc } { g with f := upd g.f i fs } := by
+  have := finv_update l g h i hi s cc fs (g.k i) hs
+  rw [upd_self] at this
+  exact this
+
+theorem g_detectSpace (l : Loss) (g : Ghost) (h : FInv l g) (sp : Nat) (hsp : sp < 3) (now ld : Int) (fst : Option Int) :
+    FInv (l.detectSpace sp now ld fst).1 { g with f := upd g.f sp (numsOf (l.detectSpace sp now ld fst).2 ++ g.f sp) } ∧
+    Fresh g sp (l.detectSpace sp now ld fst).2 := by
+  unfold Loss.detectSpace
+  simp only
+  obtain ⟨_, _, e3, e4⟩ := lossWalk_spec sp (l.space sp).maxAcked (now - ld) fst (l.space sp).pkts l.cc
+  obtain ⟨w1, w2, w3⟩ := spaceInv_walk (l.space sp) (g.f sp) (g.k sp) (h sp hsp) _ (l.space sp).maxAcked (settles_of_lost e3)
+  rw [numsOf_map, e4]
+  refine ⟨?_, fresh_of g sp _ _ (fun n hn => ⟨(w2 n (e4 ▸ hn)).1, (w2 n (e4 ▸ hn)).2.1⟩) (e4 ▸ w3)⟩
+  exact finv_update_f l g h sp hsp _ _ _ (spaceInv_clean _ _ _ w1)
+
+theorem g_discardPackets (l : Loss) (g : Ghost) (h : FInv l g) (sp : Nat) (hsp : sp < 3) :
+    FInv (l.discardPackets sp).1 { g with f := upd g.f sp (numsOf (l.discardPackets sp).2 ++ g.f sp) } ∧
+    Fresh g sp (l.discardPackets sp).2 := by
+  unfold Loss.discardPackets
+  simp only
+  obtain ⟨_, _, e3, e4, _⟩ := discWalk_spec (l.space sp).pkts l.cc
+  obtain ⟨w1, w2, w3⟩ := spaceInv_walk (l.space sp) (g.f sp) (g.k sp) (h sp hsp) _ (l.space sp).maxAcked (settles_of_lost e3)
+  rw [numsOf_map, e4]
+  refine ⟨?_, fresh_of g sp _ _ (fun n hn => ⟨(w2 n (e4 ▸ hn)).1, (w2 n (e4 ▸ hn)).2.1⟩) (e4 ▸ w3)⟩
+  exact finv_update_f l g h sp hsp _ _ _ (spaceInv_clean _ _ _ w1)
+
+theorem g_clean (l : Loss) (g : Ghost) (h : FInv l g) (sp : Nat) (hsp : sp < 3) :
+    FInv (l.setSpace sp (l.space sp).clean) g := by
+  have := finv_update_f l g h sp hsp _ l.cc _ (spaceInv_clean _ _ _ (h sp hsp))
+  rw [upd_self, setSpace_eta] at this
+  exact this
+
+theorem g_cc (l : Loss) (g : Ghost) (h : FInv l g) (cc : CC) : FInv { l with cc := cc } g := by
+  intro j hj
+  have := h j hj
+  have e : ({ l with cc := cc } : Loss).space j = l.space j := by
+    unfold Loss.space; split <;> rfl
+  rw [e]; exact this
+
+theorem g_discardKeys (l : Loss) (g : Ghost) (h : FInv l g) (sp : Nat) (hsp : sp < 3) :
+    FInv (l.discardKeys sp) { f := upd g.f sp [], k := upd g.k sp [] } := by
+  unfold Loss.discardKeys
+  simp only
+  exact finv_update l g h sp hsp {} _ [] [] spaceInv_empty
+
+theorem g_packetSent (l : Loss) (g : Ghost) (h : FInv l g) (sp : Nat) (hsp : sp < 3) (size : Int) (ae inf : Bool) (now : Int) :
+    FInv (l.packetSent sp size ae inf now) g := by
+  unfold Loss.packetSent
+  simp only [setSpace_cc]
+  have hs := spaceInv_add (l.space sp) (g.f sp) (g.k sp) (h sp hsp)
+    { num := (l.space sp).nextNum, size := size, time := now, ackEliciting := ae, inFlight := inf, state := .sent } rfl (Or.inl rfl)
+  simp only [show (PState.sent = PState.unsent) = False by simp, if_false] at hs
+  have := finv_update_f l g h sp hsp _ (l.cc.packetSent
+    { num := (l.space sp).nextNum, size := size, time := now, ackEliciting := ae, inFlight := inf, state := .sent }) _ hs
+  rw [upd_self] at this
+  exact this
+
+theorem g_skipNumber (l : Loss) (g : Ghost) (h : FInv l g) (sp : Nat) (hsp : sp < 3) (now : Int) :
+    FInv (l.skipNumber sp now) { g with k := upd g.k sp ((l.space sp).nextNum :: g.k sp) } := by
+  unfold Loss.skipNumber
+  simp only
+  have hs := spaceInv_add (l.space sp) (g.f sp) (g.k sp) (h sp hsp)
+    { num := (l.space sp).nextNum, size := 0, time := now, ackEliciting := false, inFlight := false, state := .unsent } rfl (Or.inr rfl)
+  simp only [if_true] at hs
+  have := finv_update l g h sp hsp _ l.cc _ _ hs
+  rw [upd_self, setSpace_eta] at this
+  exact this
+
+
+/-- Callbacks are new: none is for a packet number that already had a callback or that was
+skipped, and no packet appears twice among them. -/
+def FreshAll (g : Ghost) (cbs : List Callback) : Prop :=
+  (∀ c ∈ cbs, c.1 < 3 ∧ c.2.1 ∉ g.f c.1 ∧ c.2.1 ∉ g.k c.1) ∧ (cbs.map fun c => (c.1, c.2.1)).Nodup
+
+theorem freshAll_of_fresh {g : Ghost} {sp : Nat} {cbs : List Callback} (hsp : sp < 3) (h : Fresh g sp cbs) :
+    FreshAll g cbs := by
+  obtain ⟨h1, h2⟩ := h
+  refine ⟨fun c hc => ?_, ?_⟩
+  · obtain ⟨e, a, b⟩ := h1 c hc
+    rw [e]; exact ⟨hsp, a, b⟩
+  · have : (cbs.map fun c => (c.1, c.2.1)) = (numsOf cbs).map fun n => (sp, n) := by
+      simp only [numsOf, List.map_map]
+      apply List.map_congr_left
+      intro c hc
+      simp [(h1 c hc).1]
+    rw [this]
+    exact List.Pairwise.map (fun n => (sp, n)) (fun a b hab h => hab (by simpa using h)) h2
+
+theorem freshAll_nil (g : Ghost) : FreshAll g [] := ⟨by simp, by simp⟩
+
+/-- Callbacks of two consecutive primitive steps on different spaces. -/
+theorem freshAll_append {g g' : Ghost} {sp : Nat} {c0 c1 : List Callback} (hsp : sp < 3)
+    (h0 : FreshAll g c0) (hall0 : ∀ c ∈ c0, c.1 < sp) (h1 : Fresh g' sp c1)
+    (hf : g'.f sp = g.f sp) (hk : g'.k sp = g.k sp) : FreshAll g (c0 ++ c1) := by
+  obtain ⟨a1, a2⟩ := h0
+  obtain ⟨b1, b2⟩ := freshAll_of_fresh hsp h1
+  refine ⟨?_, ?_⟩
+  · intro c hc
+    rcases List.mem_append.1 hc with hc | hc
+    · exact a1 c hc
+    · obtain ⟨x, y, z⟩ := b1 c hc
+      have e := (h1.1 c hc).1
+      rw [e] at y z ⊢
+      rw [hf] at y; rw [hk] at z
+      exact ⟨hsp, y, z⟩
+  · rw [List.map_append]
+    refine List.nodup_append.2 ⟨a2, b2, ?_⟩
+    intro x hx y hy hxy
+    obtain ⟨c, hc, rfl⟩ := List.mem_map.1 hx
+    obtain ⟨d, hd, rfl⟩ := List.mem_map.1 hy
+    have := hall0 c hc
+    have := (h1.1 d hd).1
+    simp at hxy
+    omega
+
+def gDetectLoss (l : Loss) (g : Ghost) (now ld : Int) (fst : Option Int) : Ghost :=
+  let r0 := l.detectSpace 0 now ld fst
+  let g0 : Ghost := { g with f := upd g.f 0 (numsOf r0.2 ++ g.f 0) }
+  let r1 := r0.1.detectSpace 1 now ld fst
+  let g1 : Ghost := { g0 with f := upd g0.f 1 (numsOf r1.2 ++ g0.f 1) }
+  let r2 := r1.1.detectSpace 2 now ld fst
+  { g1 with f := upd g1.f 2 (numsOf r2.2 ++ g1.f 2) }
+
+theorem g_detectLoss (l : Loss) (g : Ghost) (h : FInv l g) (now ld : Int) (fst : Option Int) :
+    FInv (l.detectLoss now ld fst).1 (gDetectLoss l g now ld fst) ∧ FreshAll g (l.detectLoss now ld fst).2 := by
+  obtain ⟨i0, f0⟩ := g_detectSpace l g h 0 (by omega) now ld fst
+  obtain ⟨i1, f1⟩ := g_detectSpace _ _ i0 1 (by omega) now ld fst
+  obtain ⟨i2, f2⟩ := g_detectSpace _ _ i1 2 (by omega) now ld fst
+  unfold Loss.detectLoss gDetectLoss
+  refine ⟨i2, ?_⟩
+  simp only
+  have a0 := freshAll_of_fresh (by omega : 0 < 3) f0
+  have a1 := freshAll_append (g := g) (by omega : 1 < 3) a0
+    (fun c hc => by have := (f0.1 c hc).1; omega) f1 (by simp [upd]) rfl
+  exact freshAll_append (g := g) (by omega : 2 < 3) a1
+    (fun c hc => by
+      rcases List.mem_append.1 hc with hc | hc
+      · have := (f0.1 c hc).1; omega
+      · have := (f1.1 c hc).1; omega) f2 (by simp [upd]) rfl
+
+/-- Ghost update of one operation. -/
+def gstep (l : Loss) (g : Ghost) : Op → Ghost
+  | .send _ _ _ _ _ => g
+  | .skip sp _ => { g with k := upd g.k sp ((l.space sp).nextNum :: g.k sp) }
+  | .ackRange sp a b => { g with f := upd g.f sp (numsOf (l.receiveAckRange sp a b).2.1 ++ g.f sp) }
+  | .ackEnd sp now ld fst _ => gDetectLoss (l.setSpace sp (l.space sp).clean) g now ld fst
+  | .advance now ld fst => gDetectLoss l g now ld fst
+  | .discardPackets sp => { g with f := upd g.f sp (numsOf (l.discardPackets sp).2 ++ g.f sp) }
+  | .discardKeys sp => { f := upd g.f sp [], k := upd g.k sp [] }
+  | .setUnderutilized _ => g
+
+/-- Operations address one of the three packet number spaces. -/
+def Op.SpaceOK : Op → Prop
+  | .send sp _ _ _ _ => sp < 3
+  | .skip sp _ => sp < 3
+  | .ackRange sp _ _ => sp < 3
+  | .ackEnd sp _ _ _ _ => sp < 3
+  | .discardPackets sp => sp < 3
+  | .discardKeys sp => sp < 3
+  | _ => True
+
+/-- **Exactly-once step theorem.** In any state satisfying the ghost invariant, the callbacks an
+operation makes are all for packets that never had a callback before and were never skipped, no
+packet is reported twice within the operation (so never both acked and lost), and the invariant
+is re-established with those packets recorded as settled. -/
+theorem fate_step (l : Loss) (g : Ghost) (op : Op) (hsp : op.SpaceOK) (h : FInv l g) :
+    FInv (step l op).1 (gstep l g op) ∧ FreshAll g (step l op).2 := by
+  cases op with
+  | send sp size ae inf now => exact ⟨g_packetSent l g h sp hsp size ae inf now, freshAll_nil g⟩
+  | skip sp now => exact ⟨g_skipNumber l g h sp hsp now, freshAll_nil g⟩
+  | ackRange sp a b =>
+    obtain ⟨a1, a2⟩ := g_receiveAckRange l g h sp hsp a b
+    exact ⟨a1, freshAll_of_fresh hsp a2⟩
+  | ackEnd sp now ld fst pcd =>
+    obtain ⟨a1, a2⟩ := g_detectLoss _ g (g_clean l g h sp hsp) now ld fst
+    exact ⟨g_cc _ _ a1 _, a2⟩
+  | advance now ld fst => exact g_detectLoss l g h now ld fst
+  | discardPackets sp =>
+    obtain ⟨a1, a2⟩ := g_discardPackets l g h sp hsp
+    exact ⟨a1, freshAll_of_fresh hsp a2⟩
+  | discardKeys sp => exact ⟨g_discardKeys l g h sp hsp, freshAll_nil g⟩
+  | setUnderutilized v => exact ⟨g_cc l g h _, freshAll_nil g⟩
+
+theorem finv_init (mds : Int) : FInv (Loss.init mds) {} := by
+  intro i _
+  have : (Loss.init mds).space i = {} := by unfold Loss.space Loss.init; split <;> rfl
+  rw [this]; exact spaceInv_empty
+
+/-- Histories with the ghost record. -/
+def grun : Loss → Ghost → List Op → Loss × Ghost
+  | l, g, [] => (l, g)
+  | l, g, op :: rest => grun (step l op).1 (gstep l g op) rest
+
+theorem grun_fst (ops : List Op) (l : Loss) (g : Ghost) : (grun l g ops).1 = run l ops := by
+  induction ops generalizing l g with
+  | nil => rfl
+  | cons op rest ih => simp only [grun, run, List.foldl_cons]; exact ih _ _
+
+theorem finv_grun (ops : List Op) (l : Loss) (g : Ghost) (hv : ∀ op ∈ ops, op.SpaceOK) (h : FInv l g) :
+    FInv (grun l g ops).1 (grun l g ops).2 := by
+  induction ops generalizing l g with
+  | nil => exact h
+  | cons op rest ih =>
+    simp only [grun]
+    exact ih _ _ (fun o ho => hv o (List.mem_cons_of_mem _ ho)) (fate_step l g op (hv op List.mem_cons_self) h).1
+
+/-- **Every packet gets at most one fate, over any history.** After any history `ops` from
+`init`, the callbacks of the next operation are all for packets without a previous callback
+(since the keys of their space were last discarded) and never for a skipped number; within the
+operation no packet is reported twice, so ack and loss callbacks are disjoint. -/
+theorem fate_once (mds : Int) (ops : List Op) (op : Op) (hv : ∀ o ∈ ops, o.SpaceOK) (hop : op.SpaceOK) :
+    FreshAll (grun (Loss.init mds) {} ops).2 (step (run (Loss.init mds) ops) op).2 := by
+  have := finv_grun ops _ _ hv (finv_init mds)
+  rw [← grun_fst ops (Loss.init mds) {}]
+  exact (fate_step _ _ op hop this).2
+
+/-- Every callback is recorded in the ghost state (so `fate_once` really speaks about all
+earlier callbacks). -/
+theorem callbacks_recorded (l : Loss) (g : Ghost) (op : Op) (hsp : op.SpaceOK) (h : FInv l g) :
+    ∀ c ∈ (step l op).2, c.2.1 ∈ (gstep l g op).f c.1 := by
+  have key : ∀ (sp : Nat) (cbs : List Callback) (g0 : Ghost), (∀ c ∈ cbs, c.1 = sp) →
+      ∀ c ∈ cbs, c.2.1 ∈ upd g0.f sp (numsOf cbs ++ g0.f sp) c.1 := by
+    intro sp cbs g0 hall c hc
+    simp only [upd, hall c hc, if_true]
+    exact List.mem_append_left _ (List.mem_map.2 ⟨c, hc, rfl⟩)
+  have keyDL : ∀ (l0 : Loss) (now ld : Int) (fst : Option Int), FInv l0 g →
+      ∀ c ∈ (l0.detectLoss now ld fst).2, c.2.1 ∈ (gDetectLoss l0 g now ld fst).f c.1 := by
+    intro l0 now ld fst h0 c hc
+    obtain ⟨i0, f0⟩ := g_detectSpace l0 g h0 0 (by omega) now ld fst
+    obtain ⟨i1, f1⟩ := g_detectSpace _ _ i0 1 (by omega) now ld fst
+    obtain ⟨_, f2⟩ := g_detectSpace _ _ i1 2 (by omega) now ld fst
+    unfold Loss.detectLoss at hc
+    simp only at hc
+    unfold gDetectLoss
+    simp only
+    rcases List.mem_append.1 hc with hc | hc
+    · rcases List.mem_append.1 hc with hc | hc
+      · have e := (f0.1 c hc).1
+        simp only [upd, e]
+        simp
+        exact Or.inl (List.mem_map.2 ⟨c, hc, rfl⟩)
+      · have e := (f1.1 c hc).1
+        simp only [upd, e]
+        simp
+        exact Or.inl (List.mem_map.2 ⟨c, hc, rfl⟩)
+    · have e := (f2.1 c hc).1
+      simp only [upd, e]
+      simp
+      exact Or.inl (List.mem_map.2 ⟨c, hc, rfl⟩)
+  cases op with
+  | send sp size ae inf now => intro c hc; simp [step] at hc
+  | skip sp now => intro c hc; simp [step] at hc
+  | ackRange sp a b =>
+    exact key sp _ g (fun c hc => ((g_receiveAckRange l g h sp hsp a b).2.1 c hc).1)
+  | ackEnd sp now ld fst pcd => exact keyDL _ now ld fst (g_clean l g h sp hsp)
+  | advance now ld fst => exact keyDL l now ld fst h
+  | discardPackets sp => exact key sp _ g (fun c hc => ((g_discardPackets l g h sp hsp).2.1 c hc).1)
+  | discardKeys sp => intro c hc; simp [step] at hc
+  | setUnderutilized v => intro c hc; simp [step] at hc
+
 end NetVerif.Proofs.C26
